@@ -10,7 +10,7 @@ from .common import Machinery
 
 ALL_ACTIONS = [
     "Status", "DryRun", "Run", "Touch", "QueryFail", "Cancel", "Clean", "Reject", "Crash",
-    "EditSource", "DeleteOutput", "EditSpec", "SetUseHash", "Purge", "JobFail", "Ties",
+    "EditSource", "DeleteOutput", "EditSpec", "SetUseHash", "Purge", "JobFail", "Ties", "PoolRestart",
 ]
 
 
